@@ -42,9 +42,14 @@ def open_(prop, key, what, witness):
     F.append({'property': prop, 'key': key, 'status': 'open', 'what': what, 'witness': witness})
 
 
-def fixed(prop, key, commit, what, witness):
-    F.append({'property': prop, 'key': key, 'status': 'fixed', 'commit': commit, 'what': what, 'witness': witness,
-              'fixed_line': f'fixed: property={prop} {commit} {what}'})
+def fixed(prop, key, commit, what, witness, pinned_key=None):
+    e = {'property': prop, 'key': key, 'status': 'fixed', 'commit': commit, 'what': what, 'witness': witness,
+         'fixed_line': f'fixed: property={prop} {commit} {what}'}
+    if pinned_key:
+        # at the pinned commit the same input already fails with another key (an earlier defect, repaired by an earlier
+        # fix: commit, sits in front of this one); the key above is what the parent of `commit` shows
+        e['key_at_pinned_commit'] = pinned_key
+    F.append(e)
 
 
 # ------------------------------------------------------------------------------------------------- open findings
@@ -122,6 +127,18 @@ fixed('C14', 'C14/schedule-returned-for-unschedulable/cycle-through-hierarchy/bw
       S([T(1), T(2, estimate=8, parent=0), T(3, estimate=2)], links=[[1, 2], [2, 0]], dir='bwd', date=dt(2026, 2, 6), now=dt(2020, 1, 1), **{'class': 'unschedulable'}))
 fixed('C04', 'C04/start-not-within-first-reserved-day/bwd/per-task', 'f736a89', 'backward, balancing off: start derived from all tasks bookings lies before the first reserved day (F-S4)',
       S([T(1, estimate=4), T(2, estimate=4), T(3, estimate=4)], dir='bwd', date=dt(2026, 2, 6), now=dt(2020, 1, 1), balance=False))
+fixed('C06', 'C06/task-without-dates', 'b0582f8', 'forward: a predecessor outside the WBS that carries the id of a member marks that id as calculated; the member is never scheduled and comes back without start and end (F-S9)',
+      S([T(1, estimate=8), T(2, estimate=8)], externals=[{'id': 2, 'start': dt(2026, 1, 1), 'end': dt(2026, 1, 9), 'succ': [0], 'estimate': None, 'in_other_wbs': False}]),
+      pinned_key='C06/result-structure-differs')
+fixed('C14', 'C14/schedule-returned-for-unschedulable/external-predecessor-without-dates/fwd', 'b0582f8', 'an outside predecessor without dates is accepted when its id equals the id of a member (pre-flight check looked ids up instead of objects) (F-S9)',
+      S([T(1, estimate=8), T(2, estimate=8)], externals=[{'id': 2, 'start': None, 'end': None, 'succ': [0], 'estimate': None, 'in_other_wbs': False}], **{'class': 'unschedulable'}))
+_XB = S([T(1, estimate=8), T(2, estimate=8)], dir='bwd', date=dt(2026, 2, 6), now=dt(2020, 1, 1),
+        externals=[{'id': 100, 'start': dt(2026, 1, 20), 'end': dt(2026, 1, 22), 'succ': [], 'succ_of': [0], 'estimate': 16, 'in_other_wbs': False}])
+_XF = S([T(1, estimate=8)], externals=[{'id': 100, 'start': dt(2026, 1, 1), 'end': dt(2026, 1, 9), 'succ': [0], 'estimate': None, 'in_other_wbs': True,
+                                        'kid': {'id': 101, 'estimate': 8}}])
+fixed('C03', 'C03/row-not-of-this-schedule', 'b0009eb', 'backward: a successor outside the WBS (dated task of another project, estimate 16) is scheduled like a member: the usage report books capacity for it although it is not a task of the returned schedule (F-S10)', _XB)
+fixed('C04', 'C04/rows-of-tasks-outside-the-schedule', 'b0009eb', 'forward: the undated child of an outside summary predecessor is scheduled and gets usage rows although it is not a task of the returned schedule (F-S10)', _XF)
+fixed('C04', 'C04/rows-of-tasks-outside-the-schedule', 'b0009eb', 'backward: usage rows for a successor outside the WBS (F-S10)', _XB)
 
 
 def CP(tasks, links, ext=()):
